@@ -215,7 +215,8 @@ package readline
 //@   terminates
 //@   requires moveok(rl)
 //@   ensures [movement-never-edits] *rl.line == old(*rl.line)
-//@   loop 1 invariant moveok(rl) && *rl.line == old(*rl.line)
+//@   ensures [keeps-invariant] old(fullok(rl)) ==> fullok(rl)
+//@   loop 1 invariant moveok(rl) && *rl.line == old(*rl.line) && (old(fullok(rl)) ==> fullok(rl))
 //@   loop 1 decreases vii - i + 1
 
 //@ func (*Shell).backwardChar
@@ -256,7 +257,10 @@ package readline
 // shell with no further annotation: each index, slice, nil dereference and callee precondition in their
 // bodies (and in what is inlined into them) is an obligation.  Commands that need more than that (loop
 // invariants, contracts on the completion / display engines) are listed in DESIGN.md §4 C01 as not covered.
-//@ pred fullok(rl *Shell) = viok(rl) && core.cok(rl.cursor) && rl.Config != nil && rl.Config.Vars != nil && rl.Macros != nil && rl.Prompt != nil
+// fullok0: fullok without "the cursor is in range" (a command may leave the cursor out of range; the main loop
+// clamps it again, and Cursor.Set clamps whatever it is given)
+//@ pred fullok0(rl *Shell) = viok(rl) && rl.Config != nil && rl.Config.Vars != nil && rl.Macros != nil && rl.Prompt != nil
+//@ pred fullok(rl *Shell) = fullok0(rl) && core.cok(rl.cursor)
 
 //@ func (*Shell).autosuggestDisable
 //@   props C01
@@ -280,11 +284,14 @@ package readline
 //@   props C01
 //@   terminates
 //@   requires fullok(rl)
+//@   ensures [keeps-structure] fullok0(rl)
 
 //@ func (*Shell).backwardShellWord
 //@   props C01
 //@   terminates
 //@   requires fullok(rl)
+//@   ensures [keeps-invariant] fullok(rl)
+//@   loop 1 invariant fullok(rl)
 
 //@ func (*Shell).bracketedPasteBegin
 //@   props C01
@@ -335,6 +342,7 @@ package readline
 //@   props C01
 //@   terminates
 //@   requires fullok(rl)
+//@   ensures [keeps-structure] fullok0(rl)
 
 //@ func (*Shell).digitArgument
 //@   props C01
@@ -346,6 +354,7 @@ package readline
 //@   props C01
 //@   terminates
 //@   requires fullok(rl)
+//@   ensures [keeps-structure] fullok0(rl)
 
 //@ func (*Shell).exchangePointAndMark
 //@   props C01
@@ -362,6 +371,7 @@ package readline
 //@   props C01
 //@   terminates
 //@   requires fullok(rl)
+//@   ensures [keeps-structure] fullok0(rl)
 
 //@ func (*Shell).historySourceNext
 //@   props C01
@@ -400,11 +410,13 @@ package readline
 //@   props C01
 //@   terminates
 //@   requires fullok(rl)
+//@   ensures [keeps-structure] fullok0(rl)
 
 //@ func (*Shell).tabInsert
 //@   props C01
 //@   terminates
 //@   requires fullok(rl)
+//@   ensures [keeps-structure] fullok0(rl)
 
 //@ func (*Shell).transposeChars
 //@   props C01
@@ -421,11 +433,13 @@ package readline
 //@   props C01
 //@   terminates
 //@   requires fullok(rl)
+//@   ensures [keeps-structure] fullok0(rl)
 
 //@ func (*Shell).viAddNext
 //@   props C01
 //@   terminates
 //@   requires fullok(rl)
+//@   ensures [keeps-structure] fullok0(rl)
 
 //@ func (*Shell).viArgDigit
 //@   props C01
@@ -443,11 +457,13 @@ package readline
 //@   props C01
 //@   terminates
 //@   requires fullok(rl)
+//@   ensures [keeps-structure] fullok0(rl)
 
 //@ func (*Shell).viBackwardBlankWordEnd
 //@   props C01
 //@   terminates
 //@   requires fullok(rl)
+//@   ensures [keeps-structure] fullok0(rl)
 
 //@ func (*Shell).viBackwardDeleteChar
 //@   props C01
@@ -458,11 +474,13 @@ package readline
 //@   props C01
 //@   terminates
 //@   requires fullok(rl)
+//@   ensures [keeps-structure] fullok0(rl)
 
 //@ func (*Shell).viBackwardWordEnd
 //@   props C01
 //@   terminates
 //@   requires fullok(rl)
+//@   ensures [keeps-structure] fullok0(rl)
 
 //@ func (*Shell).viChangeCase
 //@   props C01
@@ -473,6 +491,7 @@ package readline
 //@   props C01
 //@   terminates
 //@   requires fullok(rl)
+//@   ensures [keeps-structure] fullok0(rl)
 
 //@ func (*Shell).viEndOfLine
 //@   props C01
@@ -510,16 +529,19 @@ package readline
 //@   props C01
 //@   terminates
 //@   requires fullok(rl)
+//@   ensures [keeps-structure] fullok0(rl)
 
 //@ func (*Shell).viForwardBlankWordEnd
 //@   props C01
 //@   terminates
 //@   requires fullok(rl)
+//@   ensures [keeps-structure] fullok0(rl)
 
 //@ func (*Shell).viForwardWordEnd
 //@   props C01
 //@   terminates
 //@   requires fullok(rl)
+//@   ensures [keeps-structure] fullok0(rl)
 
 //@ func (*Shell).viGotoColumn
 //@   props C01
@@ -537,6 +559,7 @@ package readline
 //@   props C01
 //@   terminates
 //@   requires fullok(rl)
+//@   ensures [keeps-structure] fullok0(rl)
 
 //@ func (*Shell).viKillEol
 //@   props C01
@@ -548,11 +571,13 @@ package readline
 //@   props C01
 //@   terminates
 //@   requires fullok(rl)
+//@   ensures [keeps-structure] fullok0(rl)
 
 //@ func (*Shell).viRedo
 //@   props C01
 //@   terminates
 //@   requires fullok(rl)
+//@   ensures [keeps-structure] fullok0(rl)
 
 //@ func (*Shell).viSelectABlankWord
 //@   props C01
@@ -564,6 +589,7 @@ package readline
 //@   props C01
 //@   terminates
 //@   requires fullok(rl)
+//@   ensures [keeps-structure] fullok0(rl)
 
 //@ func (*Shell).viSelectAWord
 //@   props C01
@@ -625,3 +651,41 @@ package readline
 //@   requires fullok(rl)
 //@   ensures [keeps-invariant] fullok(rl)
 
+
+//@ func (*Shell).yankNthArg
+//@   props C01
+//@   terminates
+//@   requires fullok(rl)
+//@   ensures [keeps-structure] fullok0(rl)
+
+// commands repaired after the exhaustive small-buffer probe (DESIGN.md §10)
+//@ func (*Shell).shellKillWord
+//@   props C01
+//@   terminates
+//@   requires fullok(rl)
+//@   ensures [keeps-structure] fullok0(rl)
+
+//@ func (*Shell).shellBackwardKillWord
+//@   props C01
+//@   terminates
+//@   requires fullok(rl)
+//@   ensures [keeps-structure] fullok0(rl)
+
+//@ func (*Shell).transposeWords
+//@   props C01
+//@   terminates
+//@   requires fullok(rl) && !autosuggest(rl)
+//@   ensures [keeps-structure] fullok0(rl)
+
+//@ func (*Shell).shellTransposeWords
+//@   props C01
+//@   terminates
+//@   requires fullok(rl)
+//@   ensures [keeps-structure] fullok0(rl)
+
+//@ func (*Shell).viForwardWord
+//@   props C01
+//@   terminates
+//@   requires fullok(rl) && !autosuggest(rl)
+//@   ensures [keeps-invariant] fullok(rl)
+//@   loop 1 invariant fullok(rl) && !autosuggest(rl)
